@@ -207,6 +207,7 @@ PROTOS = {
     'runrun': ['run', 'run'],
     'open2': ['open:a', 'open:b', 'drain:a', 'drain:b'],
     'opensql': ['open:a', 'sql', 'drain:a'],
+    'interleave': ['open:a', 'peek:a', 'open:b', 'peek:b', 'drain:a', 'drain:b'],  # two partly read result streams
     'shared': ['run', 'run@2', 'run'],  # a second query object sharing the same Filter instance
 }
 
@@ -465,16 +466,27 @@ def _execute(case, db, offset):
                 rec.append(dict(step=step, k=k, know=nsql[which], res=r))
             elif name == 'open':
                 nsql[which] += 1
-                opened[tag] = (db(q), nsql[which], which)
+                opened[tag] = [db(q), nsql[which], which, []]
+            elif name == 'peek':
+                if tag in opened and not isinstance(opened[tag][0], int):
+                    opened[tag][3].extend(itertools.islice(opened[tag][0], 1))
             elif name == 'drain':
                 if tag not in opened:
                     continue  # its open step failed and was recorded
-                g, k, w = opened[tag]
+                g, k, w, head = opened[tag]
                 which = w
-                r = g if isinstance(g, int) else list(g)
+                r = g if isinstance(g, int) else head + list(g)
                 rec.append(dict(step=step, k=k, know=nsql[w], res=r))
         except Exception as e:  # classified by the caller
-            rec.append(dict(step=step, k=opened.get(tag, (None, nsql[which]))[1], know=nsql[which], exc=e))
+            rec.append(dict(step=step, k=opened[tag][1] if tag in opened else nsql[which], know=nsql[which], exc=e))
+    # defect-signature probe (after all observations): does the SQL of the used object now carry
+    # the sampling test more than once?
+    try:
+        nrand = qs[''].to_sql()[0].count('random()')
+    except Exception:
+        nrand = 0
+    for r in rec:
+        r['nrand'] = nrand
     return rec
 
 
@@ -550,7 +562,7 @@ def _check_query(tab, case, E, r, offset):
             ok = lo <= len(ids) <= hi
         if not ok:
             finding = None
-            if r['k'] >= 2 and smp < 1.0:
+            if r['k'] >= 2 and smp < 1.0 and r.get('nrand', 0) >= 2:
                 lo, hi = ref.binom_band(n, smp ** r['k'])
                 if lo <= len(ids) <= hi:
                     finding = F_ACCUM
@@ -688,6 +700,9 @@ def run_case(case):
 def observe(case):
     """Order-independence pass: the deterministic part of the observation."""
     r = run_case(case)
+    if case.get('sample') is not None:
+        # SQLite's random() cannot be seeded: only the outcome class is reproducible
+        return {'outcome': r['outcome'].split(':')[0]}
     return {
         'outcome': r['outcome'],
         'answer': r.get('obs'),
